@@ -354,23 +354,37 @@ def flatten_rule(ctx):
                 found = guards
     if found is None:
         raise AnalysisError("SuitKeyValue.to_cbor: flattening update(...) not recognised")
-    # decision table: for a key that is each of the key classes named in the guards, and for any other key, is update() reached?
+    # decision table: for a key that is each of the key classes named in the guards (or, when the guard asks the metadata, each of
+    # the two pseudo keys), and for any other key, is update() reached?  A guard that reads `_metadata.embedded` is decided per class
+    # from that class's own metadata.
     from sa.teval import teval as _teval, Unknown as _Unknown
+    S = ctx.schema
     atoms = [s_ for g, _ in found for s_ in subterms(g) if isinstance(s_, App) and s_.op in ("is", "is not") and isinstance(s_.args[1], Ref)
              and s_.args[1].kind == "class"]
-    names = sorted({a_.args[1].obj.name for a_ in atoms})
-    keys = set()
-    try:
-        for which in names + ["<any other key>"]:
-            env = {a_: ((a_.args[1].obj.name == which) == (a_.op == "is")) for a_ in atoms}
-            if all(bool(_teval(g, env)) == pol for g, pol in found):
-                keys.add(which)
-    except _Unknown as e_:
-        raise AnalysisError(f"SuitKeyValue.to_cbor: guard of the flattening update(...) not evaluable ({e_})")
-    R.check("C02-D3b integrated members flattened", keys == {"suit_integrated_payloads", "suit_integrated_dependencies"},
-            "SuitKeyValue.to_cbor", mod=fi.module, node=fi.node, function=ctx.fq(fi),
-            expected="flatten exactly suit_integrated_payloads and suit_integrated_dependencies",
-            found=f"flattened under {sorted(keys)}")
+    emb_atoms = [s_ for g, _ in found for s_ in subterms(g) if isinstance(s_, App) and s_.op in ("in", "not in") and contains(
+        s_.args[1], lambda u: isinstance(u, App) and u.op == "attr:embedded")]
+    pseudo = ["suit_integrated_payloads", "suit_integrated_dependencies"]
+    names = sorted({a_.args[1].obj.name for a_ in atoms} | (set(pseudo) if emb_atoms else set()))
+    classes = []
+    for fq_, mi in S.meta.items():
+        mnames = {getattr(getattr(k, "cls", None), "name", None) for k, _ in (mi.map or [])}
+        if set(pseudo) <= mnames:
+            classes.append((mi.owner, [getattr(getattr(k, "cls", None), "name", None) for k in (mi.embedded or [])]))
+    if not classes:
+        raise AnalysisError("no schema class carries both integrated pseudo members")
+    for owner, emb in classes:
+        keys = set()
+        try:
+            for which in names + ["<any other key>"]:
+                env = {a_: ((a_.args[1].obj.name == which) == (a_.op == "is")) for a_ in atoms}
+                env.update({a_: ((which in emb) == (a_.op == "in")) for a_ in emb_atoms})
+                if all(bool(_teval(g, env)) == pol for g, pol in found):
+                    keys.add(which)
+        except _Unknown as e_:
+            raise AnalysisError(f"SuitKeyValue.to_cbor: guard of the flattening update(...) not evaluable ({e_})")
+        R.check("C02-D3b integrated members flattened", keys == set(pseudo), f"SuitKeyValue.to_cbor for {owner.name}", mod=fi.module, node=fi.node,
+                function=ctx.fq(fi), expected="flatten exactly suit_integrated_payloads and suit_integrated_dependencies",
+                found=f"{owner.name}: flattened under {sorted(keys)}", key_extra=owner.name)
 
 
 def all_effects_with_guards(effects, guards=()):
